@@ -275,8 +275,28 @@ func (g *ggen) anyArg(d int) *ex {
 	return col(g.pick("n", "c", "b", "s"))
 }
 
+var gUrlPool = []string{"a+b%26c", "%41%zz", "%4", "100%", "x%2Fy", "a%20b", "plain", "", "%e4%BD%a0", "k=v&x=1 2"}
+var gHexStr = []string{"6869", "6G", "abc", "FF00", "", "4a4B", "20"}
+
 func (g *ggen) strCall(d int) *ex {
-	switch g.r.Intn(16) {
+	switch g.r.Intn(20) {
+	case 16:
+		return c06Call("url_encode", g.strArg(d))
+	case 17:
+		if g.r.Bool() {
+			return c06Call("url_decode", str(gUrlPool[g.r.Intn(len(gUrlPool))]))
+		}
+		return c06Call("url_decode", g.strArg(d))
+	case 18:
+		return c06Call("encode", g.strArg(d), str(g.pick("hex", "url", "hex", "url", "base64", "rot13")))
+	case 19:
+		switch g.r.Intn(3) {
+		case 0:
+			return c06Call("decode", str(gHexStr[g.r.Intn(len(gHexStr))]), str("hex"))
+		case 1:
+			return c06Call("decode", str(gUrlPool[g.r.Intn(len(gUrlPool))]), str("url"))
+		}
+		return c06Call("decode", g.strArg(d), g.pick2(str(g.pick("hex", "url")), g.strArg(0)))
 	case 0:
 		return c06Call("upper", g.strArg(d))
 	case 1:
